@@ -564,7 +564,7 @@ def gen_res():
 
     # 05: SVG with external <use> and <image> chain
     files = {
-        "a.svg": ('<svg xmlns="http://www.w3.org/2000/svg" xmlns:xlink="http://www.w3.org/1999/xlink" width="60" height="40"><image href="b.svg" width="30" height="20"/><use xlink:href="defs.svg#sh" x="30"/><text x="2" y="38" font-family="ahem" font-size="6">sv01</text></svg>', dict(mime="image/svg+xml", kind="svg")),
+        "a.svg": ('<svg xmlns="http://www.w3.org/2000/svg" xmlns:xlink="http://www.w3.org/1999/xlink" width="60" height="40"><image href="b.svg" width="30" height="20"/><use xlink:href="defs.svg#sh" x="30"/><use xlink:href="defs.svg#sh" x="40" y="5"/><use xlink:href="defs.svg#sh" x="20" y="10"/><text x="2" y="38" font-family="ahem" font-size="6">sv01</text></svg>', dict(mime="image/svg+xml", kind="svg")),
         "b.svg": ('<svg xmlns="http://www.w3.org/2000/svg" width="30" height="20"><image href="p.png" width="10" height="10"/><rect width="8" height="8" x="12" fill="green"/></svg>', dict(mime="image/svg+xml", kind="svg")),
         "defs.svg": ('<svg xmlns="http://www.w3.org/2000/svg"><defs><g id="sh"><circle cx="10" cy="10" r="8" fill="orange"/></g></defs></svg>', dict(mime="image/svg+xml", kind="svg")),
         "p.png": (png(4, 4, (0, 0, 200)), dict(mime="image/png", kind="image")),
@@ -589,11 +589,11 @@ def gen_res():
     # 09: inline SVG with internal use cycles, gradients, patterns, markers, clip paths, masks, text
     inline = ('<svg xmlns="http://www.w3.org/2000/svg" xmlns:xlink="http://www.w3.org/1999/xlink" width="120" height="60" viewBox="0 0 120 60">'
               '<defs><linearGradient id="lg"><stop offset="0" stop-color="red"/><stop offset="1" stop-color="blue"/></linearGradient>'
-              '<radialGradient id="rg" xlink:href="#lg"/><pattern id="pt" width="10" height="10" patternUnits="userSpaceOnUse"><rect width="5" height="5" fill="url(#lg)"/></pattern>'
+              '<radialGradient id="rg" xlink:href="#lg"/><linearGradient id="c1" x1="0" y1="0" x2="0" y2="1"><stop offset="0" stop-color="red"/><stop offset="1" stop-color="blue"/></linearGradient><linearGradient id="c2" xlink:href="#c1" gradientUnits="userSpaceOnUse"/><linearGradient id="c3" xlink:href="#c2" spreadMethod="reflect"/><linearGradient id="c4" xlink:href="#c3" x2="1"/><pattern id="p1" width="6" height="6" patternUnits="userSpaceOnUse"><rect width="3" height="3"/></pattern><pattern id="p2" xlink:href="#p1" x="1"/><pattern id="p3" xlink:href="#p2" y="1"/><pattern id="pt" width="10" height="10" patternUnits="userSpaceOnUse"><rect width="5" height="5" fill="url(#lg)"/></pattern>'
               '<marker id="mk" markerWidth="4" markerHeight="4" refX="2" refY="2"><circle cx="2" cy="2" r="2"/></marker>'
               '<clipPath id="cp"><rect width="50" height="50"/></clipPath><mask id="ms"><rect width="100" height="40" fill="white"/></mask>'
               '<g id="u1"><use xlink:href="#u2"/></g><g id="u2"><use xlink:href="#u1"/></g><g id="u3"><use xlink:href="#u3"/></g></defs>'
-              '<rect width="60" height="30" fill="url(#lg)" clip-path="url(#cp)"/><circle cx="80" cy="20" r="15" fill="url(#rg)" mask="url(#ms)"/>'
+              '<rect width="60" height="30" fill="url(#lg)" clip-path="url(#cp)"/><rect x="100" y="0" width="10" height="10" fill="url(#c4)"/><rect x="100" y="12" width="10" height="10" fill="url(#c3)"/><rect x="100" y="24" width="10" height="10" fill="url(#p3)"/><circle cx="80" cy="20" r="15" fill="url(#rg)" mask="url(#ms)"/>'
               '<rect x="60" y="30" width="40" height="20" fill="url(#pt)" stroke="url(#missing)"/>'
               '<path d="M10 50 L40 50 L40 55" stroke="black" fill="none" marker-end="url(#mk)" stroke-dasharray="3 2"/>'
               '<use xlink:href="#u1"/><use xlink:href="#u3"/><use xlink:href="#nothing"/>'
@@ -666,6 +666,7 @@ def gen_shared():
             ".g { display: grid; grid-auto-rows: 2em; grid-auto-columns: 3em }\n"
             "div.r { background-image: radial-gradient(circle 2em at 1em 1em, red 0.5em, blue 2em); min-height: 3em }\n"
             "p { text-indent: 1em; word-spacing: 0.2em; letter-spacing: 0.1em; outline: 0.3em solid green; border-spacing: 0.5em; column-gap: 1em }\n"
+            "p:nth-child(2n+1) { margin-left: 1em } div:nth-of-type(3n+2) { margin-left: 2em } div > div:nth-child(-n+2) { color: red } p:nth-last-child(2n) { padding-left: 0.5em } :nth-child(3n) > div { border-left: 0.2em solid blue }\n"
             "h2 { text-shadow: 0.1em 0.1em red; box-shadow: 0.2em 0.2em 0.3em blue; transform: translate(1em, 0.5em); background-position: 1em 2em; background-size: 3em 2em }\n")
     for i, fs in enumerate([10, 20, 14, 8], start=1):
         css = page_css(300, 200, 10) + "html, body { margin: 0; font-family: ahem; font-size: %dpx; line-height: 1.2 }\np { margin: 0 0 1em 0 }\nh2 { margin: 0; font-size: 1em; font-weight: normal }\n" % fs
@@ -821,6 +822,9 @@ def gen_feat3():
              '@namespace svg url(http://www.w3.org/2000/svg);\n@media print and (min-width: 1px) { .a\\62 c { margin-left: +1.5e+0px; margin-top: -.5px; width: calc(100% - 2e1px) } }\n'
              '.u { background: url( "data:image/png;base64,AAAA" ), url(x\\29 y.png); content: "a\\"b" \'c\\\'d\' "\\26 "; color: #abc; quotes: "\\201C" "\\201D" }\n'
              'p:nth-child(2n+1):not(.x)::before, p:nth-of-type( -n + 3 ) { content: counter(c, lower-roman) attr(title) }\n'
+             'p:contains("w00"), div:containsOwn(x), p:has(> span.a, + p), :is(p, div) > :where(span, a), p:matches(.a), a:link:not([href^="#"]), :lang(en), p:only-child, p:first-of-type:last-of-type, p:empty, :root > body { margin-right: 0 }\n'
+             'a[href], a[href="x"], a[title~="t"], a[lang|="en"], a[href^="h" i], a[href$=".png" s], a[href*="x"], a[ href = x ], svg|a, *|p, |p, p#i.c.d:hover:focus, p::first-line, p::first-letter, p::marker, li::marker, p::after::before { padding-right: 0 }\n'
+             'p + p ~ p > span span, p:nth-last-child(odd), p:nth-last-of-type(even), p:nth-child(+3n - 2), p:nth-child( 2 ), p:nth-child(n), p:nth-child(-n), p:nth-child(2n+1 of .a) { padding-bottom: 0 }\n'
              '@page :first { margin: 1cm 2mm 3pt 4pc; @top-left-corner { content: "" } }\n@supports (display: grid) { .g { display: grid } }\n.e { width: 1e3px; height: 1E-1em; --v: { a: b }; transform: rotate(-1.5turn) translate(1px , -2%) }\n/* trailing comment */')
     W = words("w", 12)
     scenario("feat-07", "feat", doc(page_css(260, 160, 10) + BASE + ".ur { font-family: ur, ahem }\n", '<p class="abc u ur" title="t">%s</p><p class=e>%s</p>' % (" ".join(W[:6]), " ".join(W[6:])), '<link rel=stylesheet href="odd.css">'),
@@ -913,11 +917,13 @@ def gen_geo():
         ".z7 { width: 50px; height: 10px; background: radial-gradient(circle 0px, red, blue) } .z8 { width: 50px; height: 10px; background: linear-gradient(90deg, red 10px, blue 10px, green 10px) }\n"
         ".z9 { width: 20px; height: 20px; border-radius: 1000px; border: 1px solid black } .z10 { width: 40px; height: 0; border-top: 1px dotted black } .z11 { width: 40px; height: 10px; background: repeating-linear-gradient(red, blue 0px) }\n"
         ".z12 { width: 40px; height: 10px; background: url(dot.png) 0 0 / 0 0 } .z13 { width: 40px; height: 10px; border: 3px dashed transparent; border-image: linear-gradient(red, blue) 1 } .z14 { letter-spacing: -10px; word-spacing: -10px }\n"
+        ".z19 { width: 3px; height: 3px; background: url(big.png) round } .z20 { width: 30px; height: 3px; background: url(big.png) round space } .z21 { width: 3px; height: 30px; background: url(big.png) space round }\n"
         ".z15 { width: 40px; line-height: 0 } .z16 { padding: 0; margin: -5px 0; height: 0 } a.z17 { display: inline-block; width: 0; height: 0 } .z18 { transform: matrix(0, 0, 0, 0, 0, 0) }\n")
     W = words("w", 22)
     body = "".join('<div class="z%d">%s</div>' % (i + 1, W[i]) for i in range(16))
+    body += '<div class=z19></div><div class=z20></div><div class=z21></div>'
     body += '<p><a class=z17 href="#t1" id=t0>%s</a> <a class=z4 href="#t0" id=t1>%s</a> <a class=z18 href="#t0">%s</a></p>' % tuple(W[16:19]) + para(W[19:])
-    scenario("geo-02", "geo", doc(css, body, "<title>Geo</title>"), files={"dot.png": (png(2, 2, (200, 0, 0)), dict(mime="image/png", kind="image"))},
+    scenario("geo-02", "geo", doc(css, body, "<title>Geo</title>"), files={"dot.png": (png(2, 2, (200, 0, 0)), dict(mime="image/png", kind="image")), "big.png": (png(8, 8, (0, 100, 0)), dict(mime="image/png", kind="image"))},
              expect=dict(margin=True, page_w=300, page_h=220, meta={"Title": "Geo"}, line_height=12))
 
     # clip/paint paths for boxes that generate no border dash / no cell / no content
@@ -946,6 +952,11 @@ def gen_geo():
         inner[10] = '<a href="#%s">%s' % (tgt, ws[10]); inner[22] = ws[22] + "</a>"
         links.append(dict(word=ws[10], target=tgt)); links.append(dict(word=ws[22], target=tgt))
         body.append("<p>%s</p>" % " ".join(inner))
+    body.append('<table><colgroup id="cg1"><col id="co1"><col id="co2"></colgroup><colgroup id="cg2" span="2"></colgroup><tr><td id="cell1">x001</td><td>x002</td><td>x003</td><td>x004</td></tr></table>')
+    body.append('<p><a href="#cg1">x005</a> <a href="#co2">x006</a> <a href="#cg2">x007</a> <a href="#cell1">x008</a></p><p id="co1">x009</p><p id="cg2">x010</p>')
+    flow += ["x%03d" % i for i in range(1, 11)]
+    ids.update({"cg1": "x001", "co1": "x001", "co2": "x001", "cg2": "x001", "cell1": "x001"})
+    links += [dict(word="x005", target="cg1"), dict(word="x006", target="co2"), dict(word="x007", target="cg2"), dict(word="x008", target="cell1")]
     head = ('<title> Spaced   title </title><meta name=author content="A One"><meta name=author content=""><meta name=author content="B Two"><meta name=keywords content="k1,k2 , k3,k1"><meta name=keywords content="k4">'
             '<meta name=description content="first"><meta name=description content="second"><meta name=dcterms.created content="2020-01-02T03:04:05+01:00"><meta name=dcterms.modified content="2021-06">')
     scenario("link-05", "link", doc(css, "\n".join(body), head),
@@ -957,7 +968,7 @@ def gen_geo():
 def gen_pag4():
     # :left / :right / :first / :blank rules with different MARGINS (same size), side breaks with blank pages
     css = ("@page { size: 220px 150px; margin: 10px; @bottom-center { content: \"pg\" counter(page) \"of\" counter(pages); font-family: ahem; font-size: 8px; line-height: 8px } }\n"
-           "@page :left { margin-left: 30px; margin-right: 10px }\n@page :right { margin-left: 10px; margin-right: 30px }\n@page :first { margin-top: 40px }\n@page :blank { margin: 5px }\n"
+           "@page :left { margin-left: 30px; margin-right: 10px }\n@page :right { margin-left: 10px; margin-right: 30px }\n@page :first { margin-top: 40px }\n@page :blank { margin-top: 5px }\n"
            + BASE + "p { orphans: 1; widows: 1 }\n" + PROBE_CSS)
     body, flow, forced = [], [], []
     wi = 1
@@ -970,7 +981,7 @@ def gen_pag4():
             forced.append(dict(word=ws[0], side=brk))
     scenario("pag-22", "pag", doc(css, "\n".join(body)),
              expect=dict(flows={"main": flow}, margin=True, page_w=220, page_h=150, conserve=True, geometry=True, line_height=12, forced=forced,
-                         page_margins={"left": [10, 10, 10, 30], "right": [10, 30, 10, 10], "first": [40, 30, 10, 10], "blank-left": [5, 5, 5, 5], "blank-right": [5, 5, 5, 5]}))
+                         page_margins={"left": [10, 10, 10, 30], "right": [10, 30, 10, 10], "first": [40, 30, 10, 10], "blank-left": [5, 10, 10, 30], "blank-right": [5, 30, 10, 10]}))
 
     # long paragraphs with bottom padding / border, orphans = widows = 1: every page ends in the middle of a paragraph
     # and must be filled to the last line that fits
@@ -1050,8 +1061,74 @@ def gen_ow():
                  expect=dict(flows={"main": flow}, margin=True, page_w=220, page_h=H, conserve=True, geometry=True, fits_page=True, line_height=12, paras=paras, orphans=o, widows=w))
 
 
+def gen_wave2():
+    # (b) a float that is a direct child of a break-inside: avoid block, met by the page bottom at every phase:
+    # the block is pushed to the next page after its float was already cut
+    for n, H in enumerate([110, 134], start=10):
+        css = page_css(260, H, 10) + BASE + "p { margin: 0 } .av { break-inside: avoid } .f { float: left; width: 50px; margin-right: 10px }\n"
+        body, flows, main = [], {}, []
+        wi = 1
+        fi = 0
+        L = (H - 20) // 12
+        for phase in range(L + 1):
+            for _ in range(phase % L + 1):
+                ws = words("w", 3, wi); wi += 3; main += ws
+                body.append(para(ws))
+            fw = words("f%d" % fi, 5)
+            flows["float%d" % fi] = fw
+            ws = words("w", 12, wi); wi += 12; main += ws
+            body.append('<div class=av><div class=f>%s</div>%s</div>' % (" ".join(fw), para(ws)))
+            fi += 1
+        flows["main"] = main
+        scenario("oof-%02d" % n, "oof", doc(css, "\n".join(body)), expect=dict(flows=flows, margin=True, page_w=260, page_h=H, conserve=True, line_height=12))
+
+    # (c) lines taller than the strut next to stacked floats, with a float too wide to fit beside its text
+    css = page_css(260, 200, 10) + BASE + "p { margin: 0 0 6px 0 } .fl { float: left; width: 60px; height: 14px } .fr { float: right; width: 60px; height: 20px; clear: right } .big { font-size: 18px } .wide { float: left; width: 200px }\n.ib { display: inline-block; height: 30px; width: 20px }\n"
+    body, flows, main = [], {}, []
+    wi = 1
+    for i in range(6):
+        a, b, cw = words("a%d" % i, 1), words("b%d" % i, 1), words("c%d" % i, 2)
+        flows["fa%d" % i], flows["fb%d" % i], flows["fc%d" % i] = a, b, cw
+        ws = words("w", 12, wi); wi += 12; main += ws
+        inner = list(ws)
+        inner[1] = '<span class=big>%s</span>' % ws[1]
+        inner[4] = '<span class=ib></span> ' + ws[4]
+        inner[6] = '<span class=wide>%s</span> %s' % (" ".join(cw), ws[6])
+        body.append('<div class=fl>%s</div><div class=fr>%s</div><div class=fr></div><p>%s</p>' % (a[0], b[0], " ".join(inner)))
+    flows["main"] = main
+    scenario("oof-12", "oof", doc(css, "\n".join(body)), expect=dict(flows=flows, margin=True, page_w=260, page_h=200, conserve=True, line_height=12))
+
+    # (d) table rows split by a page break: several cells of the row cut, cells after a colspan cell, rowspans
+    css = page_css(300, 130, 10) + BASE + "table { border-collapse: separate; border-spacing: 2px; width: 100% } td { padding: 0; vertical-align: top }\n"
+    flows, rows = {}, []
+    for r in range(8):
+        tds = []
+        if r % 2 == 0:
+            cells = [(0, 2, 1, 8), (2, 1, 1, 11), (3, 1, 1, 5)]      # colspan 2 first, then two cells
+        elif r % 4 == 1:
+            cells = [(0, 1, 2, 14), (1, 1, 1, 9), (2, 2, 1, 12)]     # rowspan 2 first
+        else:
+            cells = [(1, 1, 1, 10), (2, 1, 1, 10), (3, 1, 1, 10)]    # first column taken by the rowspan above
+        for (cx, cs, rs, k) in cells:
+            ws = words("r%dc%d" % (r, cx), k)
+            flows["cell_%d_%d" % (r, cx)] = ws
+            tds.append('<td colspan=%d rowspan=%d>%s</td>' % (cs, rs, " ".join(ws)))
+        rows.append("<tr>%s</tr>" % "".join(tds))
+    scenario("table-03", "table", doc(css, "<table><thead><tr><td>th01</td><td>th02</td><td>th03</td><td>th04</td></tr></thead>%s</table>" % "".join(rows)),
+             expect=dict(flows=flows, repeat=["th01", "th02", "th03", "th04"], margin=True, page_w=300, page_h=130, conserve=True, line_height=12))
+
+    # (f) a page count that does not converge: "a III" wraps (4 pages), "a IV" fits (3 pages); the fix-point loop
+    # must still terminate (maxLoops); page counters may legitimately be inconsistent, only termination and
+    # conservation are expected
+    css = "@page { size: 100px 62px; margin: 0 }\nhtml, body { margin: 0; font-family: ahem; font-size: 10px; line-height: 10px }\np { margin: 0; width: 40px }\n.c::after { content: \"a \" counter(pages, upper-roman) }\n"
+    W = words("w", 14)
+    body = "".join("<p>%s</p>" % w for w in W[:7]) + "<p class=c></p>" + "".join("<p>%s</p>" % w for w in W[7:])
+    scenario("pag-26", "pag", doc(css, body), expect=dict(flows={"main": W}, conserve=True, line_height=10, fault_words={"_": ["a", "I", "II", "III", "IV", "V", "VI", "VII"]}))
+
+
 def main():
     gen_pag()
+    gen_wave2()
     gen_ow()
     gen_collide()
     gen_pag4()
